@@ -46,10 +46,17 @@ class Sim03(scenario.Sim):
     def __init__(self, sc: dict):
         super().__init__(sc)
         self.armed: str | None = None
+        self.cluster.before_request.append(self._tag_cycle)
         self.cluster.before_request.append(self._kill_before)
         self.cluster.after_write.append(self._kill_after)
         for spec in sc.get("wfaults", []):
             self.cluster.fault_rules.append(WindowFault(spec))
+
+    def _tag_cycle(self, req: dict) -> None:
+        """Which processing cycle (of which object uid) issues this request: the request runs in the worker's task."""
+        rec = observe._cycle.get()
+        if rec is not None:
+            req["cycle_i"], req["cycle_uid"] = rec["i"], rec["uid"]
 
     def _own_patch(self, req: dict) -> bool:
         op = self.ops.get("op")
